@@ -28,7 +28,7 @@ PENDING = {p: "in scope for deterministic simulation (DESIGN.md §5) but the che
 PROPS = {
     "C07": {
         "level": "exploration",
-        "level_text": "an alias monitor deep-copies every message that crosses the API boundary (write arguments and results, read results, old/new values of every received event, seeds) at that instant and re-compares it after every later operation and at the end of the run, while other parties (consumers scheduled at their own pace, earlier callers) keep holding them; plus caller-mutation after a write and stored-state comparison around read-only calls; on the core resources, on the parent/metadata/enter-leave models and, through a reflective driver, on every discovered trait model",
+        "level_text": "an alias monitor deep-copies every message that crosses the API boundary (write arguments and results, read results, old/new values of every received event, seeds) at that instant and re-compares it after every later operation and at the end of the run, while other parties (consumers scheduled at their own pace, earlier callers) keep holding them; plus caller-mutation after a write and stored-state comparison around read-only calls; on the core resources (single writer, and two plain writers racing), on the parent/metadata/enter-leave models and, through a reflective driver, on every discovered trait model and model server; plus fades that must not follow what callers later do to their request messages",
         "level_note": TRUST + "; the reflective driver synthesises arguments by type and skips (and lists in the evidence) methods whose parameters it cannot build; a model method that panics on a synthesised argument is ignored here",
         "technique": "deterministic simulation (writer and holder/consumer tasks, seeded schedules) with an alias monitor (snapshot-at-crossing, re-compare after every step) and a caller-mutation fault",
         "rule": RULE_SCHED + " For this property a run with at least two operations is also non-trivial (earlier results are held across later operations).",
@@ -206,7 +206,7 @@ PROPS = {
     },
     "C02": {
         "level": "exploration",
-        "level_text": "seeded exploration of 2-4 writers interleaved at every hooked window of the optimistic read / change / lock / save / publish sequence; every history checked for linearizability against the reference model; trait-level read-modify-write (count deltas, enter/leave totals) and a trait whose writes continue in a goroutine of their own (brightness fades as scheduled tasks, clients calling while a fade ticks: an acknowledged later write is never overwritten) and a model that deletes on its own (the hail keep-alive collector against concurrent refreshes); evidence over sampled schedules",
+        "level_text": "seeded exploration of 2-4 writers interleaved at every hooked window of the optimistic read / change / lock / save / publish sequence; every history checked for linearizability against the reference model; trait-level read-modify-write (count deltas, enter/leave totals) and a trait whose writes continue in a goroutine of their own (brightness fades as scheduled tasks, clients calling while a fade ticks: an acknowledged later write is never overwritten) and a model that deletes on its own (the hail keep-alive collector against concurrent refreshes); on every discovered server: relative updates add up, and after generated concurrent Updates the state is the response of one of the successful ones; evidence over sampled schedules",
         "level_note": TRUST + "; porcupine v1.3.0 as linearizability checker; the reference model of DESIGN.md appendix A (validated against the implementation by C01)",
         "technique": "deterministic simulation (seeded scheduler over simhook windows) + porcupine linearizability check against an executable reference model + conservation checks",
         "rule": RULE_SCHED,
